@@ -40,6 +40,11 @@ SPOPTS = {
     # consumer endpoints spelled as bare locations (documented spelling; the metadata binds them to HTTP-POST) on an
     # SP whose binding preferences for that service start with another binding
     'bare-acs': {'acs': [ACS_POST], 'top': {'preferred_binding': {'assertion_consumer_service': [REDIR, POST]}}},
+    # the other spellings of an endpoint the metadata generator understands: (location, binding, index) and a dict
+    'acs-3tuples': {'acs': [(ACS_POST, POST, 0), (ACS_REDIRECT, REDIR, 1), (ACS_SOAP, SOAP, 2)]},
+    'acs-dicts': {'acs': [{'location': ACS_POST, 'binding': POST, 'index': 0}, {'location': ACS_REDIRECT, 'binding': REDIR, 'index': 1},
+                          {'location': ACS_SOAP, 'binding': SOAP, 'index': 2}]},
+    'acs-dicts-no-index': {'acs': [{'location': ACS_POST, 'binding': POST}, {'location': ACS_REDIRECT, 'binding': REDIR}]},
 }
 
 
@@ -130,7 +135,8 @@ def cells(thorough):
                             binding=binding))
     out.append(dict(base, values=(), count=0))
     # A2. SP configuration variants: destination pattern option, bare-location endpoints with binding preferences
-    for spopt, (sr, sa, enc), binding in itertools.product(('dest-regex-mid', 'bare-acs'), ((True, False, False), (False, True, True), (True, True, False)), (POST, REDIR)):
+    for spopt, (sr, sa, enc), binding in itertools.product(('dest-regex-mid', 'bare-acs', 'acs-3tuples', 'acs-dicts', 'acs-dicts-no-index'),
+                                                           ((True, False, False), (False, True, True), (True, True, False)), (POST, REDIR)):
         if spopt == 'bare-acs' and binding != POST:
             continue
         out.append(dict(base, spopt=spopt, sr=sr, sa=sa, enc=enc, wants=(sr, sa, False), binding=binding))
